@@ -96,7 +96,7 @@ def plan(seed, tier="quick", index=0):
         via = "cli" if rng.random() < 0.15 else "api"
         if kind == "boundary":
             pre = rng.choice([[], [], ["ZERO"], ["ZERO", "ZERO"], ["ZERO"] * rng.randrange(3, 8)])
-            last = rng.choice(["ZERO", "ONE", "ONE", "BOUND-1", "BOUND-1", "BOUND-2", "MID", {"frac": rng.random()}])
+            last = rng.choice(["ZERO", "ONE", "ONE", "BOUND-1", "BOUND-1", "BOUND-2", "MID", {"frac": rng.random()}, {"v": hex(rng.getrandbits(rng.choice([16, 100, 127, 240])))}])
             ops.append({"via": via, "tape": pre + [last]})
         elif kind == "pairs":
             a = rng.randrange(1, N)
@@ -209,7 +209,14 @@ def _execute_concurrent(sc, tape, keep_events):
 def execute(scenario, tape=None, keep_events=False):
     if scenario["stratum"] == "concurrent":
         return _execute_concurrent(scenario, tape, keep_events)
-    bits, ecmath, keys, utils, bmain = mods()
+    mods()
+    import importlib
+
+    from sim import callersim
+
+    # every run starts from a freshly imported package ("a new process")
+    bits, (ecmath, keys, utils) = callersim.fresh_bits()
+    bmain = importlib.import_module("bits.__main__")
     sc = scenario
     res = RunResult()
     res.stratum = sc["stratum"]
@@ -299,6 +306,30 @@ def execute(scenario, tape=None, keep_events=False):
                     except Exception as e:
                         viols.append(Violation("pubkey-decode", where + f" compressed={comp}", f"point() raised {type(e).__name__}: {e}"[:200], feats))
             made.append((i, drawn[-1] if drawn else None, k))
+            # refusal clause, over the history: after K has been used, byte strings that are
+            # not a 32-byte encoding of an integer in [1, n-1] must still be refused
+            if i % 2 == 0:
+                variants = [
+                    ("zero-32", bytes(32)),
+                    ("n", N.to_bytes(32, "big")),
+                    ("2^256-1", b"\xff" * 32),
+                    ("33-bytes-zero-prefixed", b"\x00" + bytes(key)),
+                    ("40-bytes-zero-prefixed", bytes(8) + bytes(key)),
+                    ("31-bytes", bytes(key)[1:]),
+                    ("empty", b""),
+                ]
+                if k + N < 2**256:
+                    variants.append(("k+n", (k + N).to_bytes(32, "big")))
+                for name, v in variants:
+                    for fn_name, fn in (("privkey_int", utils.privkey_int), ("keys.pub", lambda b: keys.pub(b, compressed=True))):
+                        try:
+                            out = fn(v)
+                        except HarnessError:
+                            raise
+                        except Exception:
+                            probes.hit("malformed-key-refused")
+                            continue
+                        viols.append(Violation("malformed-key-accepted", where + f" variant={name} by={fn_name}", f"after generating/using key {k:#x}: {v.hex()} -> {out if isinstance(out, int) else bytes(out).hex()}", feats))
     # injectivity: distinct accepted draws -> distinct keys
     by_key = {}
     for i, acc, k in made:
